@@ -13,17 +13,14 @@ from . import rfc5234
 from .misc import load_grammar_rules
 
 
-@load_grammar_rules(
-    [
-        (rule.name, rule)
-        for rule in rfc5234.Rule.rules()
-        if rule.name not in {core_rule.name for core_rule in _Rule.rules()}
-    ]
-)
+@load_grammar_rules()
 class Rule(_Rule):
     """Rule objects generated from ABNF in RFC 7405."""
 
+    # the RFC 5234 rules are compiled again in this namespace, followed by the RFC 7405
+    # replacement of char-val, so that every char-val they mention is the RFC 7405 one.
     grammar: ClassVar[Union[list[str], str]] = [
+        *rfc5234.Rule.grammar,
         "char-val = case-insensitive-string /\
                            case-sensitive-string",
         'case-insensitive-string =\
